@@ -21,6 +21,23 @@ CookieLists == {<<>>} \cup {<<c>> : c \in CookieVals} \cup {<<c, d>> : c \in Coo
 
 Request == [t : Tuple, cookies : CookieLists]
 
+\* What the MAC of the cookie can bind is what its INPUT determines.  The input is an octet string built from the initiator SPI (8 octets), the nonce
+\* (16 .. 256 octets: variable) and the source address (4 or 16 octets: two lengths).  Scaled down here: SPI 1 octet, nonce 1 .. 3 octets, address 1 octet
+\* ("IPv4") or 2 octets ("IPv6").  `InputPlain` is the bare concatenation; `Input` marks where the nonce ends.  Two different (SPI, nonce, address)
+\* triples with the same input get the same cookie: the plain concatenation has such pairs (an "IPv6" source and nonce n against the "IPv4" source made of
+\* the last octet of that address and the nonce n | first octet) - the cookie handed to one is accepted from the other.
+Oct == {0, 1}
+OctNonces == UNION {[1..k -> Oct] : k \in 1..3}
+OctAddrs == [1..1 -> Oct] \cup [1..2 -> Oct]
+OctTuples == [spi : [1..1 -> Oct], nonce : OctNonces, addr : OctAddrs]
+InputPlain(t) == t.spi \o t.nonce \o t.addr
+Input(t) == t.spi \o <<Len(t.nonce)>> \o t.nonce \o t.addr
+Injective(f(_)) == \A t1, t2 \in OctTuples : f(t1) = f(t2) => t1 = t2
+ASSUME Injective(Input)
+ASSUME ~Injective(InputPlain)
+\* a colliding pair of the plain concatenation, for the harness to build concretely (IPv6 source / IPv4 source)
+Collision == CHOOSE p \in OctTuples \X OctTuples : p[1] # p[2] /\ InputPlain(p[1]) = InputPlain(p[2]) /\ Len(p[1].addr) = 2 /\ Len(p[2].addr) = 1
+
 \* armed iff the number of half-open IKE_SAs, counting the one just created for this request, exceeds the threshold
 Armed(h) == h + 1 > Threshold
 Valid(req) == req.cookies # <<>> /\ req.cookies[1] = CookieFor(req.t)
@@ -62,7 +79,8 @@ ASSUME RetryAccepted
 Strict(c) == ~(Armed(c.h) /\ Len(c.req.cookies) = 2 /\ c.req.cookies[1] # CookieFor(c.req.t) /\ c.req.cookies[2] = CookieFor(c.req.t))
 
 Vectors == {[h |-> c.h, t |-> c.req.t, cookies |-> c.req.cookies, fill |-> c.fill, out |-> Respond(c.h, c.req), strict |-> Strict(c)] : c \in Cases}
-ASSUME OutFile = "" \/ JsonSerialize(OutFile, [n |-> Cardinality(Vectors), threshold |-> Threshold, vectors |-> Vectors])
+ASSUME OutFile = "" \/ JsonSerialize(OutFile, [n |-> Cardinality(Vectors), threshold |-> Threshold, vectors |-> Vectors,
+                                                collision |-> [a |-> Collision[1], b |-> Collision[2]]])
 ASSUME PrintT(<<"CASES", Cardinality(Cases)>>)
 
 VARIABLE dummy
